@@ -80,7 +80,12 @@ def get_const_info(const_index, const_list):
         # refuses to convert to decimal.
         arg_repr = better_repr(arg_val)
     else:
-        arg_repr = repr(arg_val)
+        try:
+            arg_repr = repr(arg_val)
+        except ValueError:
+            # A tuple (or Python 2 long) holding an int so large that
+            # Python 3.11+ refuses to convert it to decimal.
+            arg_repr = better_repr(arg_val)
 
     # Float values "nan" and "inf" are not directly representable in Python at least
     # before 3.5 and even there it is via a library constant.
